@@ -67,7 +67,7 @@ def run_lex(cases, wd, tag="lex", timeout=900, isolated=False, go_env=None):
     model_exe = os.path.join(cm.BUILD, "model")
     if isolated:
         go_raw, culprits = cm.run_isolated(impl, "lex", [(c["id"], lex_lines(c)) for c in cases], wd, tag + "go", timeout=60,
-                                           env=go_env, mem_bytes=8 << 30)
+                                           env=go_env, mem_bytes=16 << 30)
         crashed = []
     else:
         go_raw, crashed = cm.run_sharded(impl, "lex", [(c["id"], lex_lines(c)) for c in cases], wd, tag + "go", timeout=timeout, extra_env=go_env)
